@@ -342,7 +342,13 @@ func (e *fnEnc) call(st *state, at ssa.Value, c *ssa.CallCommon, instr ssa.Instr
 	cenv := e.calleeEnv(pre, pre, c, callee, args)
 	for i, r := range fc.Requires {
 		t := cenv.evalBool(r.Expr)
-		o := e.oblige(st, "call-pre", fmt.Sprintf("%s[%s]", shortCallee(key), labelOr(r.Label, i)), c.Pos(), t)
+		kind := "call-pre"
+		if strings.HasPrefix(r.Label, "nil") {
+			// a precondition that only says "the receiver / argument is not nil" is the callee's
+			// own nil check moved to the call site: same kind as an inline nil check
+			kind = "nil"
+		}
+		o := e.oblige(st, kind, fmt.Sprintf("%s[%s]", shortCallee(key), labelOr(r.Label, i)), c.Pos(), t)
 		o.Src = r.Src
 	}
 	// callbacks: the closure passed for a function-typed parameter must accept whatever the
